@@ -235,6 +235,9 @@ def plan(tier):
 
 def run(tier, seed, workers):
     total = core.Stats()
+    from mc import selftest_doubles
+    for e in selftest_doubles.run():
+        total.selfcheck_errors.append('double self-test: ' + e)
     items = []
     for mech, F, n, bound in plan(tier):
         case = Case(mech, F, n)
